@@ -15,6 +15,18 @@ fn cls<T, E>(r: Result<T, E>) -> String {
 fn text(args: &[String], i: usize) -> Option<String> {
     arg_bytes(args, i).map(|b| String::from_utf8_lossy(&b).into_owned())
 }
+/// what every caller does with a decoded public key: verify a signature against it (message, digest and
+/// Signature-side entry points), encrypt to it.  None of it may panic, whatever bytes the decoder let through.
+fn use_pubkey(k: &PublicKey) {
+    let k0 = key_from_seed(1);
+    if let Ok(sig) = ECDSA::sign_with_deterministic_k(&k0, b"use", SigningHash::Sha256, false) {
+        let _ = ECDSA::verify_digest(b"use", k, &sig, SigningHash::Sha256);
+        let _ = ECDSA::verify_hashbuf(&[7u8; 32], k, &sig);
+        let _ = k.is_valid_message(b"use", &sig);
+        let _ = sig.verify_message(b"use", k);
+    }
+    let _ = k.encrypt_message(b"use", &k0);
+}
 fn key_from_seed(seed: u64) -> PrivateKey {
     // deterministic valid private key from a seed
     let mut b = [0u8; 32];
@@ -61,11 +73,18 @@ pub fn run(op: &str, args: &[String]) -> Option<String> {
                     let _ = k.to_compressed().and_then(|c| c.to_bytes());
                     let _ = k.to_decompressed().and_then(|c| c.to_bytes());
                     let _ = k.to_p2pkh_address();
+                    use_pubkey(&k);
                     "OK".into()
                 }
                 Err(_) => "ERR".into(),
             },
-            "pubhex" => cls(PublicKey::from_hex(&text(args, 0)?)),
+            "pubhex" => match PublicKey::from_hex(&text(args, 0)?) {
+                Ok(k) => {
+                    use_pubkey(&k);
+                    "OK".into()
+                }
+                Err(_) => "ERR".into(),
+            },
             "xprv" => cls(ExtendedPrivateKey::from_string(&text(args, 0)?)),
             "xpub" => cls(ExtendedPublicKey::from_string(&text(args, 0)?)),
             "addr" => cls(P2PKHAddress::from_string(&text(args, 0)?)),
